@@ -18,6 +18,11 @@ type ShareState struct {
 	VS map[string]map[string]*big.Rat // val -> denom -> validator shares
 	D  map[string]map[string]*big.Rat // val -> denom -> total delegator shares
 	P  map[PosKey]*big.Rat            // position -> delegator shares
+	// RelErr: per denom, the relative uncertainty that redelegation cuts put on every token value of the asset. The
+	// module converts the slashed tokens to delegation shares through round18(D/K); when one delegation share is worth
+	// 10^13 tokens that quotient keeps five digits, the cut (and with it the validator shares that leave the asset and
+	// the redistribution factor) is only that precise.
+	RelErr map[string]*big.Rat
 }
 
 func getRR(m map[string]map[string]*big.Rat, a, b string) *big.Rat {
@@ -244,6 +249,13 @@ func (st *ShareState) SlashRedelegationsAsImplementedAmb(groups []*redelGroup, f
 			if vs.Sign() > 0 {
 				setRR(st.VS, g.Dst, g.Denom, rsub(held, vs))
 				st.S[g.Denom] = rsub(st.S[g.Denom], vs)
+				if x.Cmp(s) < 0 && st.S[g.Denom].Sign() > 0 {
+					if st.RelErr == nil {
+						st.RelErr = map[string]*big.Rat{}
+					}
+					e := rquo(rmul(held, rquo(errX, D)), st.S[g.Denom])
+					st.RelErr[g.Denom] = radd(getR(st.RelErr, g.Denom), e)
+				}
 			}
 		}
 		ns := rsub(s, x)
